@@ -453,18 +453,64 @@ Definition wf_ident (o : origin) (i : ident) : bool := org_eqb (iorg i) o && Nat
 
 Definition memn (n : nat) (l : list nat) : bool := existsb (Nat.eqb n) l.
 
+(* Binding positions reached THROUGH nested invocations.  [xbv_item n M it]: the variables (identifiers and `$p`) of
+   the item that stand in a binding position once the invocations inside it are expanded (nesting depth < n):
+     - for a clause / let / if let / for: its own binding positions, parameters included;
+     - for `m!(acts)`: the actuals `TV w` passed for those parameters `$p` of m that stand in a binding position of m's
+       body in this same sense (so `mid` in `hop!($x, mid)` with `macro hop($a, $b) { edge($a, $b) }`);
+   the identifiers that the body of m introduces itself are not variables of the enclosing body and are dropped.
+   The real renaming pass sees exactly these binders because it runs on the FULLY expanded items
+   (rule_expand_macro_invocations: nested invocations first, body_items_rename_macro_originated_vars afterwards). *)
+Fixpoint zip_args (ps : list (nat * bool)) (acts : list term) (acc : list (nat * term)) : list (nat * term) :=
+  match ps, acts with
+  | (p, _) :: ps', a :: acts' => zip_args ps' acts' ((p, a) :: acc)
+  | _, _ => acc
+  end.
+Definition bp_term (t : term) : list var := match t with TV v => [v] | _ => [] end.
+Definition bp_cnd (c : cnd) : list var := match c with CBind x _ _ => [x] | CIf _ _ => [] end.
+Definition through (s : list (nat * term)) (v : var) : list var :=
+  match v with
+  | VPar p => match assoc s p with Some (TV w) => [w] | _ => [] end
+  | VId _ => []
+  end.
+Fixpoint xbv_item (depth : nat) (M : list mdef) (it : item) : list var :=
+  match depth with
+  | O => []
+  | S n =>
+      match it with
+      | IClause _ args cs => flat_map bp_term args ++ flat_map bp_cnd cs
+      | ICond c => bp_cnd c
+      | IGen x _ _ => [x]
+      | INeg _ _ => []
+      | IDisj alts => flat_map (flat_map (xbv_item n M)) alts
+      | IInv m acts =>
+          match lookup_macro M m with
+          | None => []
+          | Some d => flat_map (through (zip_args (mparams d) acts [])) (flat_map (xbv_item n M) (mbody d))
+          end
+      end
+  end.
+Definition xbv_items (depth : nat) (M : list mdef) (l : list item) : list var := flat_map (xbv_item depth M) l.
+Definition var_names (l : list var) : list string :=
+  flat_map (fun v => match v with VId i => [iname i] | VPar _ => [] end) l.
+
 (* a macro definition:
    (1) its identifiers are tagged with the macro, unscoped, and not spelled like generated names;
-   (2) every identifier of the body occurs in a binding position of the body itself (it is a bound, "macro-local"
-       variable in the sense of MACROS.MD: argument of a clause, pattern of let / if let / for);
+   (2) every identifier of the body is a bound, "macro-local" variable in the sense of MACROS.MD: it occurs in a binding
+       position of the body itself (argument of a clause, pattern of let / if let / for: [bound_direct]) or it is bound
+       through the arguments of nested invocations ([bound_nested], see xbv_item above);
    (3) it invokes only macros of smaller rank (no recursion). *)
 Definition wf_def_ids (d : mdef) : bool := forallb (wf_ident (OMac (mname d))) (ids_items (mbody d)).
-Definition wf_def_bound (d : mdef) : bool :=
-  forallb (fun i => mem_str (iname i) (map iname (bv_items (mbody d)))) (ids_items (mbody d)).
+Definition bound_direct (d : mdef) (s : string) : bool := mem_str s (map iname (bv_items (mbody d))).
+Definition bound_nested (M : list mdef) (d : mdef) (s : string) : bool := mem_str s (var_names (xbv_items DEPTH M (mbody d))).
+(* the hypothesis before nested binders were admitted (kept for reference: it implies wf_def_bound) *)
+Definition wf_def_bound_direct (d : mdef) : bool := forallb (fun i => bound_direct d (iname i)) (ids_items (mbody d)).
+Definition wf_def_bound (M : list mdef) (d : mdef) : bool :=
+  forallb (fun i => bound_direct d (iname i) || bound_nested M d (iname i)) (ids_items (mbody d)).
 Definition wf_def_rank (rk : nat -> nat) (d : mdef) : bool :=
   forallb (fun m' => Nat.ltb (rk m') (rk (mname d))) (invs_items (mbody d)).
-Definition wf_def (rk : nat -> nat) (d : mdef) : bool :=
-  wf_def_ids d && wf_def_bound d && wf_def_rank rk d.
+Definition wf_def (rk : nat -> nat) (M : list mdef) (d : mdef) : bool :=
+  wf_def_ids d && wf_def_bound M d && wf_def_rank rk d.
 
 (* macros usable in head position (HM): no identifiers of their own, invoke only such macros *)
 Definition wf_head_def (HM : list nat) (d : mdef) : bool :=
@@ -473,7 +519,7 @@ Definition wf_head_def (HM : list nat) (d : mdef) : bool :=
   else true.
 
 Definition wf_macros (rk : nat -> nat) (HM : list nat) (M : list mdef) : bool :=
-  forallb (wf_def rk) M && forallb (wf_head_def HM) M.
+  forallb (wf_def rk M) M && forallb (wf_head_def HM) M.
 
 Definition hinvs (h : hitem) : list nat := match h with HInv m _ => [m] | HClause _ _ => [] end.
 Definition par_hitem (h : hitem) : bool := match h with HClause _ a => existsb par_term a | HInv _ a => existsb par_term a end.
